@@ -72,8 +72,7 @@ Definition seen_match (m : seen) (o : oobs) : bool :=
   match m, o with
   | SReply a, OA b false => reply_match a b
   | SNoResponse, OHard => true
-  | SSuccess, OPos => true
-  | SSuccess, ONotRun => true
+  | SSuccess, ONotRun => true     (* the model answers positively only where the entry point is not concerned *)
   | _, _ => false
   end.
 
